@@ -291,16 +291,36 @@ move_thread_to_final(const char *src, const char *dst)
 	FILE *outfile = fopen(dst, "w");
 
 	if (outfile == NULL) {
-		err("fopen(%s) failed:", src);
+		err("fopen(%s) failed:", dst);
+		fclose(infile);
 		return -1;
 	}
 
+	int failed = 0;
 	size_t bytes;
-	while ((bytes = fread(buffer, 1, sizeof(buffer), infile)) > 0)
-		fwrite(buffer, 1, bytes, outfile);
+	while ((bytes = fread(buffer, 1, sizeof(buffer), infile)) > 0) {
+		if (fwrite(buffer, 1, bytes, outfile) != bytes) {
+			err("fwrite(%s) failed:", dst);
+			failed = 1;
+			break;
+		}
+	}
 
-	fclose(outfile);
+	if (!failed && ferror(infile)) {
+		err("fread(%s) failed:", src);
+		failed = 1;
+	}
+
+	if (fclose(outfile) != 0 && !failed) {
+		err("fclose(%s) failed:", dst);
+		failed = 1;
+	}
+
 	fclose(infile);
+
+	/* Keep the only complete copy if something went wrong */
+	if (failed)
+		return -1;
 
 	if (remove(src) != 0) {
 		err("remove(%s) failed:", src);
@@ -316,16 +336,14 @@ move_thdir_to_final(const char *thdir, const char *thdir_final)
 	DIR *dir;
 	int ret = 0;
 
-	if ((dir = opendir(thdir)) == NULL) {
-		err("opendir %s failed:", thdir);
-		return;
-	}
+	if ((dir = opendir(thdir)) == NULL)
+		die("opendir %s failed:", thdir);
 
 	struct dirent *dirent;
 	const char *prefix = "stream.";
 	const char *metaname = "stream.json";
 	int has_meta = 0;
-	while ((dirent = readdir(dir)) != NULL) {
+	while ((errno = 0, dirent = readdir(dir)) != NULL) {
 		/* It should only contain stream.* directories, skip others */
 		if (strncmp(dirent->d_name, prefix, strlen(prefix)) != 0)
 			continue;
@@ -361,6 +379,11 @@ move_thdir_to_final(const char *thdir, const char *thdir_final)
 			ret = 1;
 	}
 
+	if (errno != 0) {
+		err("readdir %s failed:", thdir);
+		ret = 1;
+	}
+
 	closedir(dir);
 
 	if (has_meta && ret == 0) {
@@ -376,9 +399,11 @@ move_thdir_to_final(const char *thdir, const char *thdir_final)
 		}
 	}
 
-	/* Warn the user, but we cannot do much at this point */
+	/* The trace in the final directory is not complete: don't let the
+	 * program continue as if it were. The files that couldn't be moved are
+	 * kept in the temporary directory. */
 	if (ret)
-		err("errors occurred when moving the thread dir to %s", thdir_final);
+		die("errors occurred when moving the thread dir to %s", thdir_final);
 }
 
 static void
